@@ -33,6 +33,15 @@ SPEC = PropertySpec(
 def r27_1(ctx, rep):
     R = "R27.1"
     fn = ctx.func(AST, "Class._extend", R)
+    # everything a class node carries (its state attributes in Class.__init__) except its identity, the nested classes that
+    # the merge recurses into, and the parent link that is refreshed afterwards
+    init = ctx.func(AST, "Class.__init__", R)
+    state = [t.attr for st in init.body if isinstance(st, (ast.Assign, ast.AnnAssign))
+             for t in (st.targets if isinstance(st, ast.Assign) else [st.target])
+             if isinstance(t, ast.Attribute) and is_name(t.value, "self")]
+    CONTENT = [f for f in state if f not in ("name", "classes", "parent")]  # noqa: N806
+    if len(CONTENT) < 10:
+        raise AnalysisError(R, "Class.__init__ no longer lists the class attributes (found %s)" % state)
     other = fn.args.args[1].arg
     site = AST + ":Class._extend"
     # discipline A: content of `other` is read in _extend itself
